@@ -229,6 +229,11 @@ func propC06(r *Run) {
 			}
 		}
 	}
+	// canonical locations under the edit operations (Gts.C06.*_canon*)
+	for _, l := range smallLocs(L, true) {
+		c06ClosureAll(r, l, L, []int{0, 2, L}, []int{-2, 0, 3})
+	}
+	c06ClosureScope(r)
 	// all strings up to a length over the location alphabet
 	maxLen := 4
 	if r.tier == "thorough" {
@@ -265,6 +270,8 @@ func propC06(r *Run) {
 		l := genLoc(r.rng, 3, LL, 5, true)
 		c06Value(r, l)
 		c06Join(r, genParts(r.rng, 2, LL, 5, true), r.rng.bool())
+		c06ClosureAll(r, l, LL, []int{r.rng.intn(LL + 1)}, []int{-r.rng.intn(4), r.rng.intn(4)})
+		c06JoinClosure(r, genParts(r.rng, 2, LL, 5, true))
 		// keyword-aware mutation of a printed location
 		s := []byte(l.String())
 		if len(s) > 0 {
